@@ -17,6 +17,7 @@
   end-to-end half (RIB contents after `rx_msg`) is out of scope of this version.
 -/
 import Rbgp.Wire.UpdateFull
+import Rbgp.Wire.E2EProofs
 namespace Rbgp.Wire.UProps
 open Rbgp.Wire Rbgp.Wire.USpec
 
@@ -236,5 +237,35 @@ theorem nonvacuous_weak_prefix :
     USpec.check codecV4 false uOk [.flags 0 0x80, .lenfield 3 5] (.reset ⟨3, 1, []⟩) = .ok ∧
     USpec.check codecV4 false uOk [.flags 0 0x80, .lenfield 3 5] (.reset ⟨2, 0, []⟩) =
       .fail "session-reset-with-a-notification-that-is-not-an-update-error" := by decide
+
+/-! ## 7. end to end: the table after the real receive path -/
+
+/-- end-to-end master theorem: for every peer kind, every choice of routes installed beforehand, every codec, valid
+    UPDATE and corruption list, the checker on the Adj-RIB-In (`E2E.checkE`: the byte-level classification read off the
+    table: a route that is not an OLD one = announced with its attributes, a prefix of the UPDATE not in the table =
+    withdrawn) accepts the end-to-end model (`E2E.runE2E`: `try_parse`, `validate_message`, then `rx_update`'s inserts
+    and removals, with the LOCAL_PREF an internal peer left out added) -/
+theorem check_e2e_ok (dec : HypDec) (hd : dec.NP) (hde : dec.E3) (p : Profile) (kind : E2E.Kind) (pre : Bool)
+    (c : Codec) (ebgp : Bool) (u : CUpdate) (cs : List Corr) (bytes : Bytes) :
+    E2E.checkE kind c ebgp u cs bytes (E2E.runE2E dec p kind pre c ebgp u bytes) = .ok :=
+  E2E.checkE_run_ok dec hd hde p kind pre c ebgp u cs bytes
+
+/-- the end-to-end checker judges and rejects: COMMUNITIES with wrong flags from an external peer, routes installed
+    beforehand.  Keeping the old route, installing the new one, or (for a clean UPDATE with a withdrawal) keeping the
+    withdrawn prefix are all rejected; removing the announced prefix is accepted. -/
+theorem nonvacuous_e2e :
+    let bs := render codecV4 uOk [.flags 3 0x80]
+    let k : E2E.RKey := ⟨65537, 0, 8, [10, 0, 0, 0]⟩
+    E2E.wfE .ibgp codecV4 false uOk [.flags 3 0x80] bs = true ∧
+    E2E.checkE .ibgp codecV4 false uOk [.flags 3 0x80] bs (.up []) = .ok ∧
+    E2E.checkE .ibgp codecV4 false uOk [.flags 3 0x80] bs (.up [(k, E2E.oldAttrs .ibgp)]) =
+      .fail "announced-prefix-neither-withdrawn-nor-session-reset" ∧
+    E2E.checkE .ibgp codecV4 false uOk [.flags 3 0x80] bs
+        (.up [(k, [⟨1, 0x40, .val 0⟩, ⟨2, 0x40, .bin []⟩, ⟨5, 0x40, .val 100⟩])]) =
+      .fail "route-announced-although-an-attribute-error-requires-treat-as-withdraw" ∧
+    E2E.checkE .ebgp codecV4 true { uOk with wd := [⟨0, 24, [10, 9, 9]⟩] } []
+        (render codecV4 { uOk with wd := [⟨0, 24, [10, 9, 9]⟩] } [])
+        (.up [(⟨65537, 0, 24, [10, 9, 9, 0]⟩, E2E.oldAttrs .ebgp)]) =
+      .fail "withdrawal-in-the-same-message-lost" := by decide
 
 end Rbgp.Wire.UProps
